@@ -119,6 +119,7 @@ def batch_lines(thorough, seed, end_year_quick=1982, end_year_thorough=1990):
     else:
         add("c15g", "T1", 10001, "G1", 0, "T1-G1")                      # F7 pattern on the table route
         add("c15g", "E1", 10001, "G1", 0, "E1-G1")                      # ... and on the restore route
+        add("c15g", "T5", 10001, "G2", 0, "T5-stones")                  # regression: ULS, 30 % stones in the top horizon (fixed d7a6e7d)
         add("c15g", rnd.choice(["T2", "T3", "T4", "T5"]), 10001, rnd.choice(["G2", "G3", "G4"]), 0, "table")
         add("c15p", rnd.choice(["T1", "T2", "T3", "E2"]), rnd.choice([10001, 10002, 10003]), None, 0, "sinus")
         k = rnd.choice([1, 2, 3, 4])
